@@ -186,6 +186,25 @@ def call_terms(ctx, callee_path, crates=LIB, _depth=0):
     return uniq
 
 
+def effects(N, syms=None):
+    """the recorded effects (assignments, &mut method calls, &mut arguments) of a function, each with the guards under which it
+    runs, rendered with the given symbols: [{"lid", "name", "kind", "node", "guards": [str]}]"""
+    old, memo = N.syms, N._memo
+    if syms:
+        N.syms = dict(old)
+        N.syms.update(syms)
+        N._memo = {}
+    try:
+        out = []
+        for lid, effs in N.effects.items():
+            for node, kind, guards in effs:
+                out.append({"lid": lid, "name": N.defs.get(lid, (None, None, {}))[2].get("name"), "kind": kind, "node": node,
+                            "guards": list(N.guards_term(guards))})
+        return out
+    finally:
+        N.syms, N._memo = old, memo
+
+
 def owners(ctx, path, crates=LIB, _depth=0):
     """the functions a piece of code belongs to for who-may rules: a transparent helper (private, non-recursive, named by no
     rule) belongs to the functions that call it; every other function to itself. Returns a sorted list of fn paths."""
